@@ -1976,7 +1976,7 @@ def pair_wrappers(world, nonpure, results, stats, seen):
         stats['wrapper_pairs'] = stats.get('wrapper_pairs', 0) + 1
 
 
-def emit_lean(results, gen_dir, stats):
+def emit_lean(results, gen_dir, stats, enum_worlds=None):
     openk = load_open_findings()
     L = ['import N2k.Model.Layout',
          '/-! GENERATED by tools/translators/layouts.py from src/N2kMessages.cpp, src/N2kMaretron.cpp, src/NMEA2000.cpp',
@@ -2076,6 +2076,20 @@ def emit_lean(results, gen_dir, stats):
         else:
             open_pairs.append(nm)
         Pf.append('')
+    L.append('/-! enumerations as declared in the headers on this run: (enumerator, code point) -/')
+    done_en = set()
+    for w_ in (enum_worlds or []):
+        names_ = dict((k, k) for k in w_.enums)
+        for al, tgt in w_.aliases.items():
+            tgt = re.sub(r'^enum\s+', '', tgt)
+            if tgt in w_.enums and re.fullmatch(r'\w+', al):
+                names_[al] = tgt
+        for nm_ in sorted(names_):
+            if nm_ in done_en or not re.fullmatch(r'[A-Za-z_]\w*', nm_):
+                continue
+            done_en.add(nm_)
+            L.append('def enum_%s : List (String × Nat) := [%s]' % (nm_, ', '.join('("%s", %d)' % (a, b) for a, b in w_.enums[names_[nm_]] if b >= 0)))
+    L.append('')
     L.append('/-- every function pair / setter the translator looked at -/')
     L.append('def all : List Pair := [%s]' % ', '.join(pair_names))
     L.append('/-- pairs with both sides translated and every obligation stated positively -/')
@@ -2399,6 +2413,23 @@ def emit_glue(results, path, worlds):
         table.append('  {"%s", %dUL, f_%s, %d, set_%s, %s, v_%s, %d}' % (
             R['id'], R['pgn'] or 0, cid, len(names), cid, ('parse_' + cid) if P else 'nullptr', cid, len(vrows)))
         H.append('')
+    # enumerators by NAME, valued by the compiler from the real headers (for the C15 code-point oracle)
+    used_enums, rows = set(), []
+    for R in results:
+        for n_ in R['names']:
+            f_ = R['info'][n_].get('sfield') or R['info'][n_].get('pfield')
+            if f_ and f_.get('kind') == 'enum':
+                used_enums.add((R['file'], f_['ctype']))
+    seen_en = set()
+    for fl, en in sorted(used_enums):
+        if en in seen_en:
+            continue
+        seen_en.add(en)
+        for a, _b in worlds[fl].enums.get(en, []):
+            rows.append('  {"%s", "%s", (long long)%s}' % (en, a, a))
+    H.append('struct EnumVal { const char *type, *name; long long value; };')
+    H.append('static const EnumVal enumVals[] = {\n%s\n};' % ',\n'.join(rows))
+    H.append('static const int nEnumVals = %d;' % len(rows))
     H.append('static const Pair pairs[] = {\n%s\n};' % ',\n'.join(table))
     H.append('static const int nPairs = %d;' % len(table))
     H.append('}  // namespace lg')
@@ -2409,7 +2440,7 @@ def emit_glue(results, path, worlds):
 def run(src_dir, gen_dir):
     results, stats = collect(src_dir)
     worlds = stats.pop('_worlds')
-    emit_lean(results, gen_dir, stats)
+    emit_lean(results, gen_dir, stats, [worlds[f] for f in FILES if f in worlds])
     fallbacks = []
     fields_t = fields_o = 0
     for R in results:
